@@ -1829,7 +1829,17 @@ class Cluster(object):
             for udt_name, klass in type_map.items():
                 session.user_type_registered(keyspace, udt_name, klass)
 
+    def _is_current_host(self, host):
+        # False once the host has been removed from the metadata (also when its endpoint has
+        # been added again since, as a new Host instance)
+        return self.metadata.get_host(host.endpoint) is host
+
     def _cleanup_failed_on_up_handling(self, host):
+        if not self._is_current_host(host):
+            # removed in the meantime: on_remove() has told everyone, and a new Host instance
+            # for the same endpoint must not be affected
+            return
+
         self.profile_manager.on_down(host)
         self.control_connection.on_down(host)
         for session in tuple(self.sessions):
@@ -1879,6 +1889,10 @@ class Cluster(object):
         Intended for internal use only.
         """
         if self.is_shutdown:
+            return
+
+        if not self._is_current_host(host):
+            log.debug("Ignoring up status of node %s, which has been removed", host)
             return
 
         log.debug("Waiting to acquire lock for handling up status of node %s", host)
@@ -1962,7 +1976,12 @@ class Cluster(object):
             self.scheduler, schedule, host.get_and_set_reconnection_handler,
             new_handler=None)
 
-        old_reconnector = host.get_and_set_reconnection_handler(reconnector)
+        with host.lock:
+            if not self._is_current_host(host):
+                # on_remove() cancels the handler it finds: it must not find none and miss this one
+                log.debug("Not starting a reconnector for node %s, which has been removed", host)
+                return
+            old_reconnector = host.get_and_set_reconnection_handler(reconnector)
         if old_reconnector:
             log.debug("Old host reconnector found for %s, cancelling", host)
             old_reconnector.cancel()
@@ -1976,6 +1995,10 @@ class Cluster(object):
         Intended for internal use only.
         """
         if self.is_shutdown:
+            return
+
+        if not self._is_current_host(host):
+            log.debug("Ignoring down status of node %s, which has been removed", host)
             return
 
         with host.lock:
@@ -3338,6 +3361,11 @@ class Session(object):
                 # a special flag to make sure the reconnector is created
                 self.cluster.signal_connection_failure(
                     host, conn_exc, is_host_addition, expect_host_to_be_down=True)
+                return False
+
+            if not self.cluster._is_current_host(host):
+                log.debug("Host %s was removed while its connection pool was being opened", host)
+                new_pool.shutdown()
                 return False
 
             previous = self._pools.get(host)
